@@ -5,6 +5,7 @@ R11.1 syntax-order table: _offset() stops at the first child that ends before th
       interleaved builders hand back the reversed remainder of a list they consume with pop() un-reversed.
 R11.2 units of the offset primitive: _params_offset computes byte deltas, _offset receives dcol_offset in bytes and compares / adds
       it only to byte columns (instances of the R6.1 unit inference on fst_core._offset, _params_offset, _offset_lns, _put_src).
+R11.4 sentinel agreement: callers of the modification context pass `field` within its declared domain (sa/litdomain.py).
 R11.3 early-termination anchors: every `break` of the walk in _offset() is guarded by a comparison of the child's *end* position with
       the offset point, and nodes starting on a later line are skipped only under `dln == 0`... (structure of the walk).
 Not decided: the head / tail rules at the edit point (integer logic over runtime positions).
@@ -21,7 +22,16 @@ PROP = 'C11'
 VERSIONED = True
 
 
+def check_modifying_sentinel(ctx):
+    from .. import litdomain
+    ctx.rule('R11.4', 'the modification context is entered with a `field` inside its declared domain `str | Literal[False]`: it tells "the node is '
+                      'the child" from "the node is the container" by `field is False`, so another falsy literal (None, 0, \'\') starts the '
+                      'walk that collects the self-documenting f-string texts to refresh from the wrong node', 8)
+    litdomain.check(ctx, 'R11.4', lambda fi, p, ann: fi.qualname in ('_modifying', '_Modifying.__init__') and p == 'field', 8)
+
+
 def run(ctx):
+    check_modifying_sentinel(ctx)
     ctx.not_decided += ['head / tail rules for nodes that begin or end exactly at the edit point', 'equality with a from-scratch parse of the new source']
     F = T.fields(ctx)
     ctx.rule('R11.1', 'children are enumerated completely and in source order (table vs grammar); interleaved builders restore the '
